@@ -114,7 +114,7 @@ FACETS = [
     Facet('np/layers', f_layer, strategy=lambda t: st_layercase('np', 5), examples={'quick': 800, 'thorough': 30000}, shards={'quick': 1, 'thorough': 4}),
     Facet('np/circuit-configs', f_circuit, strategy=lambda t: c09.st_case('np', 4 if t == 'quick' else 5, 10 if t == 'quick' else 14, c09.CONFIGS),
           examples={'quick': 2000, 'thorough': 80000}, shards={'quick': 4, 'thorough': 16}),
-    Facet('torch/gates', f_gate, strategy=lambda t: st_gatecase('torch', 3, ['rot', 'fmap', 'bmap']), examples={'quick': 200, 'thorough': 8000}, backend='torch'),
+    Facet('torch/gates', f_gate, strategy=lambda t: st_gatecase('torch', 3, ['rot', 'rotc', 'fmap', 'bmap']), examples={'quick': 200, 'thorough': 8000}, backend='torch'),
     Facet('torch/circuit-configs', f_circuit, strategy=lambda t: c09.st_case_torch(4, 8), examples={'quick': 200, 'thorough': 8000},
           shards={'quick': 2, 'thorough': 8}, backend='torch'),
 ]
@@ -132,7 +132,7 @@ def f_history(case):
 
 
 FACETS.append(Facet('np/build-histories', f_history, strategy=lambda t: c09.st_history('np', 4), examples={'quick': 1500, 'thorough': 60000}, shards={'quick': 3, 'thorough': 12}))
-FACETS.append(Facet('torch/build-histories', f_history, strategy=lambda t: c09.st_history('torch', 3, ['rot', 'fmap', 'bmap'], ('CliffordCircuit',)),
+FACETS.append(Facet('torch/build-histories', f_history, strategy=lambda t: c09.st_history('torch', 3, ['rot', 'rotc', 'fmap', 'bmap'], ('CliffordCircuit',)),
                     examples={'quick': 150, 'thorough': 6000}, shards={'quick': 1, 'thorough': 4}, backend='torch'))
 
 
@@ -183,5 +183,5 @@ def st_call_sequence(be, hiN, kinds=None, configs=None):
 
 
 FACETS.append(Facet('np/call-sequences', f_call_sequence, strategy=lambda t: st_call_sequence('np', 4), examples={'quick': 1500, 'thorough': 60000}, shards={'quick': 3, 'thorough': 12}))
-FACETS.append(Facet('torch/call-sequences', f_call_sequence, strategy=lambda t: st_call_sequence('torch', 3, ['rot', 'fmap', 'bmap'], c09.TORCH_CONFIGS),
+FACETS.append(Facet('torch/call-sequences', f_call_sequence, strategy=lambda t: st_call_sequence('torch', 3, ['rot', 'rotc', 'fmap', 'bmap'], c09.TORCH_CONFIGS),
                     examples={'quick': 150, 'thorough': 6000}, shards={'quick': 1, 'thorough': 4}, backend='torch'))
